@@ -12,7 +12,8 @@
 EXTENDS Integers, Sequences, FiniteSets, TLC, Json
 VARIABLE st
 Units == <<"\n", " \n", "\t\n", "\r\n", "\r", "\f", " \f", "(\f\n)", "  ", "\t", "(", "((", ")", "[", "[user, ", "user, ", "#", " #x", " # c\n", "x", "x ", "or ", " or a", " and a",
-           " but not a", "a from ", "define ", "type t\n", "\ntype t", "\n    define a: b", "//", "/", "\"", "'", "'''", "r\"", "{", "1", "1.", ".", "-", "a-", "a.b/", ":", ",", "*", "<", "&&", "u+"
+           " but not a", "a from ", "define ", "type t\n", "\ntype t", "\n    define a: b", "//", "/", "\"", "'", "'''", "r\"", "{", "1", "1.", ".", "-", "a-", "a.b/", ":", ",", "*", "<", "&&", "u+",
+           "\r\r\n", "\r \n", "\r\t\n", " \r \r\n", "\n\r"      \* carriage returns that a single trim of the line end leaves in front of the line feed
            >>
 \* contexts: [prefix, suffix, name]
 Contexts == << [name |-> "top", prefix |-> "model\n  schema 1.1\n", suffix |-> "\ntype user\n"],
